@@ -223,7 +223,7 @@ def check_swap(case, acc):
                     problems.append(("swap-span", f"{f1!r}: {nm} column space differs from that of {'y ~ ' + f0!r} ({rep})"))
                 elif rep["rank_x"] != rep["ncol"] and linalg.rank(a) == a.shape[1]:
                     problems.append(("swap-span", f"{f1!r}: {nm} matrix lost full column rank ({rep})"))
-    acc.bulk(max(n - 1, 0), "assignments")
+    acc.subcases(case, n - 1, True, "assignments")
     report(case, acc, problems, nontrivial=True)
 
 
